@@ -30,7 +30,7 @@ CLAIMED = {
             "Trusts the oracle in props/c03.py; a tool is forbidden only if outside both the constructed and the current ceiling; refusal-as-failure is demanded only where the tool call is the top-level request.",
             "DESIGN 4 C03"),
     "C06": ("fault_enumeration",
-            "deterministic simulation with fault enumeration: every assignment of {permit, execute, block, defer, unknown, failure, raises, starved} to each voter (exhaustive n<=3 quick / n<=4 thorough) x all strategies/thresholds/min_voters/EmergencyQuorum, then seeded sampling n=5..7, reliability-drift histories and real agents starved by the shared budget; clauses S1-S6 in exact fractions incl. metamorphic monotonicity re-runs",
+            "deterministic simulation with fault enumeration: every assignment of {permit, execute, block, defer, unknown, failure, raises, starved} to each voter (exhaustive n<=3 quick / n<=4 thorough) x all strategies/thresholds/min_voters 0..n/EmergencyQuorum, then seeded sampling n=5..7, reliability-drift and colony-change histories (add/remove agents incl. duplicate names and weight 0), real agents starved by the shared budget, and 2-3 tasks voting on one quorum object under the seeded line-granularity scheduler; clauses S1-S6 in exact fractions incl. metamorphic monotonicity re-runs",
             "Complete enumeration of voter behaviour/fault assignments for small electorates (weights and confidences drawn per row) plus seeded sampling beyond; fakes play the voters, the real QuorumSensing/EmergencyQuorum/ATP_Store aggregate. Exhaustive only over the stated finite table.",
             "Trusts the oracle in props/c06.py; S2 is qualified by 'votes that count under the strategy's own rule'; one listed finding (ratio strategies at custom threshold 1.0).",
             "DESIGN 4 C06"),
@@ -75,7 +75,7 @@ CLAIMED = {
             "Trusts pydantic for re-validation and the oracle in props/c18.py; bounds are upper bounds (stopping earlier is not a violation).",
             "DESIGN 4 C18"),
     "C19": ("fault_enumeration",
-            "deterministic simulation with fault enumeration: every stage callback (checkpoint, processor, error handler) independently in {absent, pass, reject, raise}, required/optional, both halt modes, amplification incl. >max - exhaustive for <=2 stages (quick) / <=3 (thorough), sampled for 4-5 stages and the MAPK preset; fakes log (stage, role, signal)",
+            "deterministic simulation with fault enumeration: every stage callback (checkpoint, processor, error handler) independently in {absent, pass, reject, raise}, required/optional, both halt modes, amplification incl. >max - exhaustive for <=2 stages (quick) / <=3 (thorough), sampled for 4-5 stages (empty/duplicate names, None/falsy outputs, raising observers), the MAPK preset, and one Cascade shared by 2 tasks under the seeded line-granularity scheduler; fakes log (stage, role, signal)",
             "74112 one- and two-stage pipelines are enumerated completely in the quick tier (221184 more three-stage ones in thorough) against the real Cascade; stage outputs are unique tokens so 'ran for exactly that signal' and composition are checkable.",
             "Trusts the oracle in props/c19.py; amplification is the step-wise clamped product; halting is demanded only after required stages.",
             "DESIGN 4 C19"),
